@@ -190,7 +190,7 @@ Section Report.
     destruct (is_f0_min_change_reached _ _ _) eqn:Em.
     { apply hoareT_ret. cbn. rewrite !app_nil_r. split; [exact C2|]. split; [exact B2|]. split; [discriminate|].
       intros _. split; [reflexivity|]. right. unfold ftstop. cbn. repeat split; auto. exists fo. exact Em. }
-    destruct (update_mem K c _ _ _ _ _) as [[X2 G3] m2].
+    destruct (update_mem_f K c _ _ _ _ _ _) as [[X2 G3] m2].
     destruct (u_cb U) as [cb|].
     - eapply hoareT_bind with (R1 := fun b tr => exists snap, tr = [EvCb snap (cb snap)] /\ cb snap = Ok b).
       { apply hoareT_call. intros b Hb. eexists. split; [reflexivity|exact Hb]. }
@@ -342,7 +342,7 @@ Section Report.
     intros [[[[f1 fo] g1] G1] filt] _.
     destruct (if filt then _ else _) as [X1 G2].
     destruct (is_f0_target_reached _ _); [qt|]. destruct (is_f0_min_change_reached _ _ _); [qt|].
-    destruct (update_mem K c _ _ _ _ _) as [[X2 G3] m2].
+    destruct (update_mem_f K c _ _ _ _ _ _) as [[X2 G3] m2].
     destruct (u_cb U) as [cb|]; [|qt].
     eapply hoare_bind with (R1 := fun _ => True); [apply hoare_call; [repeat split|auto]|]. intros b _. destruct b; qt.
   Qed.
